@@ -211,8 +211,13 @@ func jsonEq(a, b *JNode) *Term {
 }
 
 func (e *Exec) jsonLen(b *BytesV) *Term {
-	// only "is it empty" style uses are supported: JSON text is never empty
-	return IntC(1)
+	if b.n == nil {
+		// the length of a JSON text is an arbitrary positive number, fixed per value
+		b.n = e.fresh("jsonlen", 64)
+		e.assume(BVCmp("bvslt", IntC(1), b.n))
+		e.assume(BVCmp("bvslt", b.n, IntC(1<<40)))
+	}
+	return b.n
 }
 
 // ---- forcing lazy nodes -----------------------------------------------------
